@@ -36,7 +36,12 @@ def apply_set(m, slot, v, nominal=None, method="NEARSQUARE"):
     elif slot == "bore":
         m.set_borehole(height={1: 100.0, 2: 83.0}[nominal], buried_depth=2.0 if v == 1 else 3.0, diameter=0.14)
     elif slot == "sim":
-        m.set_simulation_parameters(num_months=12, max_eft=35, min_eft=5, max_height=135, min_height=60)
+        # variant 2: a borehole cap (with the continue flag, so that a capped run still returns a design). Calling the setter again with
+        # variant 1 must leave nothing of the cap behind.
+        if v == 2:
+            m.set_simulation_parameters(num_months=12, max_eft=35, min_eft=5, max_height=135, min_height=60, max_boreholes=2, continue_if_design_unmet=True)
+        else:
+            m.set_simulation_parameters(num_months=12, max_eft=35, min_eft=5, max_height=135, min_height=60)
     elif slot == "loads":
         m.set_ground_loads_from_hourly_list(profile(3500.0 if v == 1 else 5200.0))
     elif slot == "geom":
@@ -134,7 +139,7 @@ def manager_exhaustive(chk: Check, t: str):
     mod = f"""---- MODULE MC_Manager ----
 EXTENDS Manager
 c_Slots == {tla(set(SLOTS))}
-c_Vary == {tla({"soil", "bore"})}
+c_Vary == {tla({"soil", "bore", "sim"})}
 ====
 """
     k = 4 if t == "quick" else 5
